@@ -270,7 +270,12 @@ func (svc *service) stop() {
 	}
 
 	// Remove the session from session store if it's suppose to be clean session
-	if svc.sess.Cmsg.CleanSession() && svc.sessMgr != nil {
+	cmsg := svc.cmsg
+	if cmsg == nil {
+		// client side
+		cmsg = svc.sess.Cmsg
+	}
+	if cmsg.CleanSession() && svc.sessMgr != nil {
 		// A successor with the same client ID may have replaced the session in
 		// the store already; that one is not ours to delete.
 		svc.sessMgr.Release(svc.sess)
